@@ -282,8 +282,10 @@ class RunNormalizer(CallbackBase):
             index_start = sum(_next_index.values())
             _next_index["index"] = frame + 1
             index_stop = sum(_next_index.values())
-            if index_stop < index_start:
+            if index_stop <= index_start:
                 # The datum is likely referencing a next Resource, but the indexing must continue
+                # (a datum always covers at least one frame, so "no progress" is a restart as well:
+                # the previous Resource held exactly as many frames as this datum's frame index + 1)
                 _next_index["carry"] = index_start
                 index_stop = sum(_next_index.values())
         else:
